@@ -20,6 +20,10 @@ CLAIMED = {
             "quaternions; z3 answers unsat for all real inputs at once. Right level: the property is a finite set of "
             "polynomial identities in the state.", "4/C01",
             "symbolic execution of the real numpy code on z3 terms + z3 nlsat per scalar obligation; float replay of models", ""),
+    "C04": ("proof", "Velocity/acceleration/Jacobian/angular-velocity clauses and every stated partial derivative of RigidBody, PointMass and "
+            "Frame are compared with the chain-rule tangent of the repo's own primal function, for all real states, offsets, masses and "
+            "inertias at once; gyroscopic power, quaternion length rate, M symmetric positive definite, E_kin, step_callback normalisation.",
+            "4/C04", "symbolic execution of the real code on z3-term jets + z3 nlsat per scalar obligation; float replay of models", ""),
 }
 
 NOT_APPLICABLE = {
